@@ -49,9 +49,9 @@ class OrderingIterable(utils.IterableType):
             @staticmethod
             def compare(left, right):
                 result = 0
-                for t in outer_self.order:
-                    a = t[0](left)
-                    b = t[0](right)
+                for index, t in enumerate(outer_self.order):
+                    a = left.key(index)
+                    b = right.key(index)
                     if outer_self.operator_lt(a, b):
                         result = -1
                     elif outer_self.operator_gt(a, b):
@@ -65,24 +65,32 @@ class OrderingIterable(utils.IterableType):
 
             def __init__(self, obj):
                 self.obj = obj
+                self.keys = {}
+
+            def key(self, index):
+                # each key selector is applied to an element at most once,
+                # not once per comparison the element takes part in
+                if index not in self.keys:
+                    self.keys[index] = outer_self.order[index][0](self.obj)
+                return self.keys[index]
 
             def __lt__(self, other):
-                return self.compare(self.obj, other.obj) < 0
+                return self.compare(self, other) < 0
 
             def __gt__(self, other):
-                return self.compare(self.obj, other.obj) > 0
+                return self.compare(self, other) > 0
 
             def __eq__(self, other):
-                return self.compare(self.obj, other.obj) == 0
+                return self.compare(self, other) == 0
 
             def __le__(self, other):
-                return self.compare(self.obj, other.obj) <= 0
+                return self.compare(self, other) <= 0
 
             def __ge__(self, other):
-                return self.compare(self.obj, other.obj) >= 0
+                return self.compare(self, other) >= 0
 
             def __ne__(self, other):
-                return self.compare(self.obj, other.obj) != 0
+                return self.compare(self, other) != 0
 
         outer_self.sorted = sorted(outer_self.collection, key=Comparator)
 
